@@ -113,6 +113,29 @@ def _chains():
             out.append([["new", 0, tc], ["relchurn", 10, k, c, f, 0], ["new", 50, c], a(50), ["new", 51, c], a(51)])
             out.append([["new", 0, tc], ["new", 1, c], a(1), ["drop", 1], ["relchurn", 10, k, c, f, 0],
                         ["relchurn", 30, k, c, f, 0], ["new", 50, c], a(50)])
+    # a container handed over from an instance that then dies (what dataclasses.replace does), swept or not, then
+    # assertions through the adopted container, with transitive consequences on both sides
+    for k in (0, 1, 2):
+        for sweep in (True, False):
+            ops = [["new", i, 1] for i in range(1, 6)] + [["new", 10, 1]]
+            ops += [["set", 3, 10, i] for i in range(1, k + 1)] + [["set", 3, 2, 3]]
+            ops += [["adopt", 11, 10, 3]]
+            if sweep:
+                ops.append(["sweep"])
+            ops += [["set", 3, 11, 4], ["set", 3, 4, 5], ["set", 3, 5, 1]]
+            out.append(ops)
+            out.append(ops[:-3] + [["set", 3, 4, 5], ["set", 3, 11, 4], ["adopt", 12, 11, 3], ["set", 3, 12, 5]])
+    # Symbols with user-defined truthiness (class 9: falsy while empty) related directly; sweeps while they are
+    # falsy / truthy; related again afterwards
+    for pre_fill in (False, True):
+        ops = [["new", 0, 9], ["new", 1, 2], ["new", 2, 9], ["new", 3, 4]]
+        if pre_fill:
+            ops.append(["fill", 0])
+        ops += [["rel", 4, 0, 1], ["rel", 4, 2, 0], ["rel", 5, 3, 2], ["sweep"], ["rel", 5, 0, 1], ["empty", 0], ["fill", 2],
+                ["sweep"], ["rel", 5, 1, 0], ["rel", 4, 0, 3], ["empty", 2], ["sweep"], ["rel", 4, 1, 2]]
+        out.append(ops)
+    out.append([["new", 0, 9], ["new", 1, 9], ["rel", 4, 0, 1], ["drop", 1], ["sweep"], ["new", 2, 9], ["rel", 4, 0, 2],
+                ["rel", 5, 2, 0], ["sweep"], ["rel", 5, 0, 2]])
     # roles: a relation asserted on a role reaches the role taker (super-property on the role taker); the role dies
     # while its role taker lives on, is swept (or not), and a new role of another taker gets the recycled node index
     for sweep in (True, False):
@@ -148,23 +171,26 @@ def generate(rng, tier, n):
     for i in range(n):
         if i % 3 != 2:
             # garbage prefix (everything created in it is dropped), then assertions on new instances
-            gp = _sg.Gen(rng, classes=(1, 1, 2, 3))
+            gp = _sg.Gen(rng, classes=rng.choice([(1, 1, 2, 3), (1, 1, 2, 3), (1, 2, 9, 4)]))
             prefix = gp.history(rng.randint(3, 10), w_query=0, w_clear=0, w_sweep=0.5, w_churn=rng.choice([0.0, 0.5]),
-                                w_role=rng.choice([0.0, 1.5]),
+                                w_role=rng.choice([0.0, 1.5]), w_bag=rng.choice([0.0, 1.0]),
+                                w_adopt=rng.choice([0.0, 0.8]),
                                 w_relchurn=rng.choice([0.0, 0.6]))
             for o in list(gp.held):
                 prefix.append(["drop", o])
             if rng.random() < 0.6:
                 prefix.append(["sweep"])
-            gs = _sg.Gen(rng, classes=(1, 1, 2, 3), first_label=100)
+            gs = _sg.Gen(rng, classes=rng.choice([(1, 1, 2, 3), (1, 1, 2, 3), (1, 2, 9, 4)]), first_label=100)
             suffix = gs.history(rng.randint(3, 10), w_query=0, w_clear=0, w_drop=0.5, w_sweep=0.3,
-                                w_role=rng.choice([0.0, 1.5]),
+                                w_role=rng.choice([0.0, 1.5]), w_bag=rng.choice([0.0, 1.0]),
+                                w_adopt=rng.choice([0.0, 0.8]),
                                 w_relchurn=rng.choice([0.0, 0.0, 0.8]))
             cases.append(_case(prefix + suffix, ("random", "after-prefix"), "random"))
             cases.append(_case(suffix, ("random", "fresh"), "random"))
         else:
-            g = _sg.Gen(rng, classes=(1, 1, 2, 3))
-            ops = g.history(rng.randint(4, 20), w_query=0, w_clear=0.2, w_role=rng.choice([0.0, 2.0]))
+            g = _sg.Gen(rng, classes=rng.choice([(1, 1, 2, 3), (1, 1, 2, 3), (1, 2, 9, 4)]))
+            ops = g.history(rng.randint(4, 20), w_query=0, w_clear=0.2, w_role=rng.choice([0.0, 2.0]),
+                            w_bag=rng.choice([0.0, 1.0]), w_adopt=rng.choice([0.0, 1.0]))
             cases.append(_case(ops, ("random", "interleaved"), "random"))
     return cases
 
